@@ -39,7 +39,33 @@ def main(argv=None):
             out.write("REPLAY-VIOLATION key=%s %s\n" % (v["key"], v["what"]))
         return 1
     t0 = time.time()
-    return mod.run(args.tier, seed, t0)
+    try:
+        return mod.run(args.tier, seed, t0)
+    except BaseException as e:  # noqa
+        # an exception that escapes a check outside the worker pool: if it came out of the library under test it is a violation
+        # of whatever was being checked (reported as such, with a replay file); otherwise the harness is broken (exit 2)
+        import hashlib
+        import traceback
+        if isinstance(e, (KeyboardInterrupt, SystemExit)):
+            raise
+        tb = traceback.extract_tb(e.__traceback__)
+        repo = os.path.realpath(core.REPO) + os.sep
+        lib = [f for f in tb if os.path.realpath(f.filename).startswith(repo)]
+        text = traceback.format_exc()
+        out = sys.__stdout__
+        if not lib:
+            sys.__stderr__.write(text)
+            out.write("HARNESS ERROR %s: %r\n" % (prop, e))
+            return 2
+        rdir = os.path.join(core.VERIF, "replays", prop)
+        os.makedirs(rdir, exist_ok=True)
+        what = "unexpected %s raised inside %s (%s:%d) while the check was running" % (type(e).__name__, lib[-1].name, os.path.basename(lib[-1].filename), lib[-1].lineno)
+        path = os.path.join(rdir, hashlib.sha1(text.encode()).hexdigest()[:16] + ".json")
+        json.dump({"property": prop, "key": "unexpected-exception:" + lib[-1].name, "what": what + ": " + repr(e),
+                   "case": {"kind": "shard", "shard": "main process", "traceback": text[-1500:]}}, open(path, "w"), indent=1)
+        out.write("VIOLATION property=%s replay=%s  # %s: %r\n" % (prop, path, what, e))
+        out.write("FAIL %s tier=%s seed=%d (exception out of the library in the main process)\n" % (prop, args.tier, seed))
+        return 1
 
 
 if __name__ == "__main__":
